@@ -47,6 +47,16 @@ func reentrantOps() []nohb.Op {
 			d := append([]byte(nil), der...)
 			return func() { x509.ParseCertificate(d) }
 		}})
+		// called directly: encoding/json takes its encoder state from a sync.Pool around MarshalJSON, and that
+		// Put/Get pair is a happens-before edge that would hide races inside the method
+		ops = append(ops, nohb.Op{Name: "(*Certificate).MarshalJSON(own parse of " + s.Name + ")", New: func() func() {
+			c, err := x509.ParseCertificate(append([]byte(nil), der...))
+			return func() {
+				if err == nil {
+					c.MarshalJSON()
+				}
+			}
+		}})
 		ops = append(ops, nohb.Op{Name: "json.Marshal(own parse of " + s.Name + ")", New: func() func() {
 			c, err := x509.ParseCertificate(append([]byte(nil), der...))
 			return func() {
